@@ -731,21 +731,36 @@ class DiffXFileSection(ContainerOptionsMixin,
         if not self.diff or self.diff_type == DiffType.BINARY:
             return
 
+        diff = self.diff
+        diff_encoding = self.diff_encoding
+
+        if diff_encoding:
+            # The hunk parser works on ASCII-compatible byte strings. Diffs
+            # in other encodings (such as UTF-16) need to be converted before
+            # they can be analyzed.
+            try:
+                diff = diff.decode(diff_encoding).encode('utf-8')
+                diff_encoding = 'utf-8'
+            except (LookupError, UnicodeError) as e:
+                logger.error('Error decoding the diff for %r: %s',
+                             self, e)
+                return
+
         if self.diff_line_endings:
             # This function can raise an exception, but only if the line
             # endings aren't a supported type. Our property already validates
             # this, so we should be fine, unless someone's done something
             # very wrong.
             newline = get_newline_for_type(self.diff_line_endings,
-                                           encoding=self.diff_encoding)
+                                           encoding=diff_encoding)
         else:
             line_endings, newline = guess_line_endings(
-                self.diff,
-                encoding=self.diff_encoding)
+                diff,
+                encoding=diff_encoding)
 
         try:
             hunks_info = get_unified_diff_hunks(
-                split_lines(data=self.diff,
+                split_lines(data=diff,
                             newline=newline),
                 ignore_garbage=True)
         except Exception as e:
